@@ -1,4 +1,5 @@
 import PicoProofs.EndToEnd
+import PicoProofs.GoTieApi
 import PicoProofs.Tie
 /-
 C09 — Decoding concatenated encodings equals decoding them one after another.
@@ -47,5 +48,24 @@ theorem C09_unmarshal_concat (S : Schema) (hS : S.supported = true) (id : Nat) (
     ∃ d2 m2 d12 m12, Gen2.unmarshal S id b m1 = .ok (d2, m2) ∧ Gen2.unmarshal S id (a ++ b) m0 = .ok (d12, m12) ∧
       (d12.err = none ↔ d2.err = none) ∧ (d2.err = none → m12 = m2) :=
   unmarshal_concat S hS id a b m0 hm0
+
+/-- the same about the Go source: unmarshalling `a` then `b` into the same message with the translated
+`Unmarshal`, and `a ++ b` in one call, agree (error-wise, and value-wise when accepted) -/
+theorem C09_source_unmarshal_concat (S : Schema) (hS : S.supported = true) (id : Nat) (a b : Bytes) (m0 : Val)
+    (hm0 : Gen2.shMsg S id m0 = true) :
+    ∀ m1, GoTie.srcUnmarshal S id a m0 = .ok (m1, none) →
+    ∃ m2 e2 m12 e12, GoTie.srcUnmarshal S id b m1 = .ok (m2, e2) ∧ GoTie.srcUnmarshal S id (a ++ b) m0 = .ok (m12, e12) ∧
+      (e12 = none ↔ e2 = none) ∧ (e2 = none → m12 = m2) := by
+  intro m1 h1
+  obtain ⟨d1, m1', hr1⟩ := Gen2.unmarshal_total S id a m0
+  have := GoTie.srcUnmarshal_of S id a m0 d1 m1' hr1
+  rw [this] at h1
+  have hinj := Res.ok.inj h1
+  have hm : m1' = m1 := (Prod.mk.inj hinj).1
+  have he : d1.err = none := (Prod.mk.inj hinj).2
+  subst hm
+  obtain ⟨d2, m2, d12, m12, h2, h12, hiff, hval⟩ := unmarshal_concat S hS id a b m0 hm0 d1 m1' hr1 he
+  exact ⟨m2, d2.err, m12, d12.err, GoTie.srcUnmarshal_of S id b m1' d2 m2 h2,
+    GoTie.srcUnmarshal_of S id (a ++ b) m0 d12 m12 h12, hiff, hval⟩
 
 end Pico.Props
